@@ -1,17 +1,48 @@
-(* C01 - value semantics.  Statements only; proofs are `exact` into Rc/*_proofs.v.
-   (stage 1: the spec and its correspondence; the machine theorems are added by the later stages) *)
-From Coq Require Import ZArith List Bool.
-From NV Require Import Rc.ValueSem.
-Import ListNotations.
-Open Scope Z_scope.
+(* C01 - value semantics: mutation never leaks through an alias.
+   Only statements here; every proof is `exact <lemma>` into Rc/Cow_proofs.v / Rc/Heap_proofs.v.
 
-(* the README's pitch, in the spec: rows built by aliasing one row stay independent *)
-Theorem C01_spec_readme_matrix :
+   MACHINE  Rc/Heap.v + Rc/Cow.v : heap of cells with explicit strong counts; clone / drop (recursive
+            at 0) / make_mut / in-place write; the statement forms transcribed from eval.rs.
+   SPEC     Rc/ValueSem.v        : the same statements over pure immutable trees.
+   StInv st     : every strong count = number of handles to that cell from variables + cell bodies
+                  (hence no dangling handle, nothing points to a freed cell)
+   Sim st sg    : every variable's handle value stands for (repr) the spec's tree; repr is an
+                  inductive (well-founded) relation, so the reachable heap is acyclic
+   traces_agree : after every statement: same raised/not-raised flag, StInv, Sim.
+
+   FRAGMENT covered by the theorems below (`frag`): see notes/C01.md.  The full statement
+   ("forallb frag ops" dropped) is the goal; forms outside `frag` are covered by the
+   correspondence run only. *)
+From Coq Require Import ZArith List Bool.
+From NV Require Import Rc.ValueSem Rc.Heap Rc.Cow Rc.Heap_proofs Rc.Cow_proofs.
+Import ListNotations.
+
+(* the abstraction is a (partial) function of the heap and the handle value *)
+Theorem C01_abs_functional : forall h v t t', repr h v t -> repr h v t' -> t = t'.
+Proof. exact repr_det. Qed.
+Print Assumptions C01_abs_functional.
+
+(* one statement: the machine and the value semantics stay related *)
+Theorem C01_step_refines : forall s, frag s = true -> forall st sg st' ok,
+  StInv st -> Sim st sg -> m_exec st s = (st', ok) ->
+  exists sg', exec sg s = (sg', ok) /\ StInv st' /\ Sim st' sg'.
+Proof. exact m_exec_ok. Qed.
+Print Assumptions C01_step_refines.
+
+(* every history, observed after every statement, from the initial state of n null variables *)
+Theorem C01_cow_refines_value : forall n ops, forallb frag ops = true ->
+  traces_agree (run_cow (init_state n) ops) (run_value (repeat VNull n) ops).
+Proof. intros n ops H. apply run_refines; auto; apply init_ok. Qed.
+Print Assumptions C01_cow_refines_value.
+
+(* non-vacuity: the README's aliased matrix runs through both semantics and they agree *)
+Example C01_nonvacuous :
   let row := VList [VInt 0; VInt 0; VInt 0] in
-  final_value [VNull; VNull; VNull]
-    [Simple (SAssign 1 [] (ELit row));
-     Simple (SAssign 2 [] (EList [ERead 1 []; ERead 1 []]));
-     Simple (SAssign 2 [PI 1; PI 2] (ELit (VInt 3)))]
-  = [VNull; row; VList [row; VList [VInt 0; VInt 0; VInt 3]]].
-Proof. exact readme_matrix. Qed.
-Print Assumptions C01_spec_readme_matrix.
+  let ops := [Simple (SAssign 1 [] (ELit row));
+              Simple (SAssign 2 [] (EList [ERead 1 []; ERead 1 []]));
+              Simple (SAssign 2 [PI 1; PI 2] (ELit (VInt 3)))] in
+  forallb frag ops = true /\
+  final_value [VNull; VNull; VNull] ops = [VNull; row; VList [row; VList [VInt 0; VInt 0; VInt 3]]] /\
+  map (abs_val 5 (mheap (final_cow (init_state 3) ops))) (roots (final_cow (init_state 3) ops))
+    = map Some (final_value [VNull; VNull; VNull] ops).
+Proof. repeat split; reflexivity. Qed.
